@@ -134,6 +134,11 @@ def r2(ctx, facts, cfg, fname, rule, floor):
         cp = g.positions(c)
         ok = bool(edges) and all(not g.exists_path([g.entry_node], [tnode(g, b)], avoid_nodes=cp) for (b, t) in edges)
         ctx.ob(rule + "c", site + ":wait-after-submit", ok, "the flag is awaited only after the request has been submitted", fn=f)
+        # the load that ends the wait synchronises with the backend's store: what the backend wrote (sinks, files) happens-before the return
+        loads = [atomic_op(strip(core_and_neg(g.term_cond(b))[0], casts=True)) or atomic_op(core_and_neg(g.term_cond(b))[0]) for (b, t) in edges]
+        strong = bool(loads) and all(a and a.get("order") in ("acquire", "seq_cst", "acq_rel") for a in loads)
+        ctx.ob(rule + "e", site + ":wait-load-acquires", strong,
+               "the load of the flag that ends the wait is an acquire (or stronger) load: %s" % [(a or {}).get("order") for a in loads], fn=f)
 
 
 def r3(ctx, facts, cfg):
@@ -166,6 +171,8 @@ def r3(ctx, facts, cfg):
         ok = passed and is_null(strip(init, casts=True) if not (isnode(init) and init["k"] == "InitListExpr") else (init.get("c") or [None])[0])
         ctx.ob("C06.R3b", "_process_lowest_timestamp_transit_event:flag-from-dispatch", ok,
                "the pointer stored to is the local handed by reference to _process_transit_event and starts as nullptr", fn=f)
+        ctx.ob("C06.R3c", "_process_lowest_timestamp_transit_event:notify-store-releases", a.get("order") in ("release", "seq_cst", "acq_rel"),
+               "the store that releases the waiting caller is a release (or stronger) store: %s" % a.get("order"), loc=n["loc"], fn=f)
     pf = facts.need(BW + "_process_transit_event", cfg)[0]
     pg = pf.g
     flagp = pf.rec["params"][2]["did"]
